@@ -172,19 +172,19 @@ def cer_canon(kind, der, base, flen, d1, d2, d3, sep, suffix, d4=0, d5=0, d6=0):
         text = b + (".", ",")[sep - 1] + frac + SUFFIX[suffix]
     enc = der_encoder if der else cer_encoder
     must_refuse = suffix != 0 or sep == 2
-    try:
-        out = enc.encode(cls(text))
-    except error.PyAsn1Error:
-        if must_refuse or flen > 3:
-            return None  # (fractions beyond milliseconds may be refused: the encoders promise canonical output, not acceptance of everything)
-        return "a UTC value with '.' fraction was refused: %s" % text
-    if must_refuse:
-        return "non-canonical input accepted (%s)" % ("not UTC / no Z" if suffix != 0 else "comma")
     # canonical form: trailing zeros stripped, no dangling dot
     stripped = frac
     while stripped.endswith("0"):
         stripped = stripped[:-1]
     want = b + ("." + stripped if stripped else "") + "Z"
+    try:
+        out = enc.encode(cls(text))
+    except error.PyAsn1Error:
+        if must_refuse or not (12 < len(want) < 19):
+            return None  # (the library limits time strings to 13..18 characters: a value whose CANONICAL form is longer may be refused)
+        return "a UTC value whose canonical form %r is within the library's limits was refused: %s" % (want, text)
+    if must_refuse:
+        return "non-canonical input accepted (%s)" % ("not UTC / no Z" if suffix != 0 else "comma")
     content = out[2:]
     if content != want.encode("ascii"):
         return "canonical encoder emitted %r for %r, expected %r" % (content, text, want)
